@@ -7,7 +7,7 @@ from ..facets.poly import PolyFacet
 from ..facets.pred import Pred
 from ..ir import walk
 from ..loader import AnalysisError
-from .common import INTERP_MOD, call_args, ext_name, is_ext_call, scatter_chain, strip_cast
+from .common import INTERP_MOD, call_args, ext_name, is_ext_call, is_iterator_output, iterators_in, scatter_chain, strip_cast
 from .taus_ctx import TausCtx, interpolator_calls
 
 EXPLANATION = (
@@ -150,7 +150,7 @@ def angle_value_in_region(pr, X, region, betas):
 
 
 def sampler_angle_operand(store):
-    its = [n for n in walk([store.args[2]]) if n.op == "NdIter"]
+    its = iterators_in(store.args[2])
     if len(its) == 1 and len(its[0].extra.get("operands", ())) >= 2:
         return its[0].extra["operands"][1]
     return None
@@ -167,6 +167,66 @@ def _is_angles(n, betas):
 def is_f32_eps(n):
     return n.op == "Attr" and n.attr == "eps" and is_ext_call(n.args[0], "numpy.finfo") and \
         n.args[0].args[1].op == "Ext" and n.args[0].args[1].attr in ("numpy.float32", "numpy.single")
+
+
+FLOAT_DTYPES = {"numpy.float64", "numpy.float32", "numpy.float16", "numpy.longdouble", "numpy.double", "numpy.single",
+                "builtins.float", "numpy.float_", "numpy.floating"}
+INT_DTYPES = {"builtins.int", "builtins.bool", "numpy.int64", "numpy.int32", "numpy.int16", "numpy.int8", "numpy.intp",
+              "numpy.uint8", "numpy.uint16", "numpy.uint32", "numpy.uint64", "numpy.bool_", "numpy.int_"}
+
+
+def _float_buffer(I, alloc, energies):
+    """True: the allocation's element type is floating point independently of the energy argument; False: it is the
+    type of the energy argument or an explicit integer type; None: cannot tell"""
+    g = I.g
+    if not (alloc.op == "Call" and alloc.args and alloc.args[0].op == "Ext"):
+        return None
+    q = alloc.args[0].attr
+    pos, kws = call_args(alloc)
+    like = q in ("numpy.empty_like", "numpy.zeros_like", "numpy.ones_like", "numpy.full_like")
+    plain = q in ("numpy.empty", "numpy.zeros", "numpy.ones", "numpy.full")
+    if not (like or plain):
+        return None
+    dt = kws.get("dtype")
+    if dt is None:
+        k = {"numpy.full": 2, "numpy.full_like": 2}.get(q, 1)
+        dt = pos[k] if len(pos) > k else None
+    if dt is not None:
+        name = dt.attr if dt.op == "Ext" else (dt.attr if dt.op == "Const" and isinstance(dt.attr, str) else None)
+        if name in FLOAT_DTYPES or (isinstance(name, str) and name.lstrip("<>=")[:1] in ("f", "d") and "." not in name):
+            return True
+        if name in INT_DTYPES or (isinstance(name, str) and name.lstrip("<>=")[:1] in ("i", "u", "b", "?") and
+                                  "." not in name):
+            return False
+        if dt.op == "Attr" and dt.attr == "dtype":
+            src = dt.args[0]
+            return False if _derives_from(I, src, energies) else None
+        return None
+    if plain:
+        if q == "numpy.full":
+            return None        # type of the fill value
+        return True         # numpy's default element type is float64
+    return False if _derives_from(I, pos[0], energies) else True if pos else None
+
+
+def _derives_from(I, n, src):
+    """n is src itself, a selection of it or a cast-free copy (same element type)"""
+    for _ in range(12):
+        n = strip_cast(n) if n.op != "Call" else n
+        if n is src or I.g.vn(n) == I.g.vn(src):
+            return True
+        if n.op == "Subscript":
+            n = n.args[0]
+        elif n.op == "Scatter":
+            n = n.args[0]
+        elif n.op == "MCall" and n.attr[0] in ("copy", "ravel", "flatten", "reshape", "squeeze") and n.args:
+            n = n.args[0]
+        elif is_ext_call(n, "numpy.asarray", "numpy.array", "numpy.atleast_1d", "numpy.ravel", "numpy.copy",
+                         "numpy.ascontiguousarray") and len(n.args) == 2:
+            n = n.args[1]
+        else:
+            return False
+    return False
 
 
 def run(ck, ctx):
@@ -215,7 +275,7 @@ def run(ck, ctx):
             if rname not in kinds:
                 continue
             sc, bound, v, rf = kinds[rname]
-            its = [n for n in walk([v]) if n.op == "NdIter"]
+            its = iterators_in(v)
             ok = False
             detail = f"{len(its)} sampler loop(s) in the stored value"
             if len(its) == 1 and len(its[0].extra.get("operands", ())) >= 2:
@@ -229,7 +289,7 @@ def run(ck, ctx):
         for n in (T.betas, T.log_e_nu, T.u):
             lc.seed(n, ("EV", "in"))
         lc.of(res)
-        iters = [n for n in walk([res]) if n.op == "NdIter"]
+        iters = iterators_in(res)
         for it in iters:
             for o in it.extra.get("operands", ()):
                 lc.of(o)
@@ -252,10 +312,10 @@ def run(ck, ctx):
         stores = {k: v[0] for k, v in kinds.items() if k in ("valid", "low") and v[0] is not None}
         if len(stores) < 2:
             stores = {f"store{i}": sc for i, sc in enumerate(scatter_chain(z)[1])
-                      if any(n.op == "NdIter" for n in walk([sc.args[2]]))}
+                      if iterators_in(sc.args[2])}
         for kind, sc in stores.items():
             val = sc.args[2]
-            its = [n for n in walk([val]) if n.op == "NdIter"]
+            its = iterators_in(val)
             for it in its:
                 n_sites += 1
                 ops = it.extra.get("operands", ())
@@ -268,9 +328,16 @@ def run(ck, ctx):
                       construct=f"{func}: operands of the {kind} sampler call")
                 # R04.5b: returned value is the allocated operand
                 b0, ch = scatter_chain(_strip_phi(val))
-                ck.ob("R04.5", f"sampler for the '{kind}' events returns the iterator's allocated operand "
-                      "(complete for batches larger than the buffer)", b0.op == "NdAlloc", val,
-                      "grid_cdf_sampler.sample", f"returns {g.show(b0, 1)}")
+                ck.ob("R04.5", f"sampler for the '{kind}' events returns the iterator's output operand - the array it "
+                      "allocated or was given - not a buffer chunk (complete for batches larger than the buffer)",
+                      is_iterator_output(I, b0, [it]), val, "grid_cdf_sampler.sample", f"returns {g.show(b0, 1)}")
+                # R04.8: the fractions are stored in floating point whatever the type of the energies
+                if b0.op != "NdAlloc" and is_iterator_output(I, b0, [it]):
+                    ck.ob("R04.8", f"sampler for the '{kind}' events: the array that receives the sampled fractions is "
+                          "floating point whatever the type of the energy argument (whole-number energies are "
+                          "legitimate input; a fraction in (0, 1) stored in their type is 0)",
+                          _float_buffer(I, b0, T.log_e_nu), b0, "grid_cdf_sampler.sample", g.show(b0, 3)[:160],
+                          construct="grid_cdf_sampler.sample: dtype of the result array")
         ck.floor("R04.1", n_sites, 1, "masked sampler calls")
         # ---- R04.3 bounds discipline
         calls = interpolator_calls(walk([res]))
